@@ -74,6 +74,11 @@ def make_input(kind, data, sw, ch, files):
         return data, kw
     if kind == "buffer":
         return L["io"].BufferAudioSource(data, SR, sw, ch), {}
+    if kind == "buffer_pos2":
+        # a buffer source whose cursor was advanced before the reader was built: the reader's stream starts there
+        src = L["io"].BufferAudioSource(data, SR, sw, ch)
+        src.position = min(2, len(data) // (sw * ch))
+        return src, {}
     if kind == "raw":
         return files["raw"], dict(kw, large_file=True, audio_format="raw")
     if kind == "wav":
@@ -125,7 +130,9 @@ def c10_case(kind, n, sw, ch, files, B, block_dur, H, hop_dur, max_read, extra_r
     data = content(n, sw, ch)
     bps = sw * ch
     samples = [data[i : i + bps] for i in range(0, len(data), bps)]
-    vis = samples[: visible_count(n, max_read)]
+    if kind == "buffer_pos2":
+        samples = samples[min(2, n):]
+    vis = samples[: visible_count(len(samples), max_read)]
     exp = blocks_of(vis, B, H)
     try:
         r = build_reader(kind, data, sw, ch, files, block_dur, hop_dur, max_read)
@@ -267,8 +274,11 @@ class RecSys:
         data = content(n, sw, ch)
         bps = sw * ch
         samples = [data[i : i + bps] for i in range(0, len(data), bps)]
-        self.vis = samples[: visible_count(n, mr)]
+        if kind == "buffer_pos2":
+            samples = samples[min(2, n):]
+        self.vis = samples[: visible_count(len(samples), mr)]
         self.B, self.H = B, H
+        self.many = None
         hop_dur = None if H == B else H / SR
         self.real = build_reader(kind, data, sw, ch, None, B / SR, hop_dur, mr,
                                  record=(how == "record"), cls="Recorder" if how == "Recorder" else None)
@@ -280,9 +290,24 @@ class RecSys:
         self.rec = None
 
     def ops(self):
+        if self.many:
+            return [("read_many", self.many), ("read",), ("rewind",), ("data",)]
         return [("read",), ("rewind",), ("data",)]
 
     def step(self, op):
+        if op[0] == "read_many":
+            # k reads as one step (long histories): outputs are compared as digests
+            import hashlib
+
+            hr, hm = hashlib.sha1(), hashlib.sha1()
+            nr = nm = 0
+            for _ in range(op[1]):
+                r, m = self._real(("read",)), self._model(("read",))
+                hr.update(repr(r).encode())
+                hm.update(repr(m).encode())
+                nr += r[0] == "data"
+                nm += m[0] == "data"
+            return ("many", nr, hr.hexdigest()), ("many", nm, hm.hexdigest())
         return self._real(op), self._model(op)
 
     def _real(self, op):
@@ -303,7 +328,10 @@ class RecSys:
     def _model(self, op):
         src = self.vis if self.phase == "live" else self.rec
         if op[0] == "read":
-            blocks = blocks_of(src, self.B, self.H)
+            ck = (id(src), len(src))
+            if getattr(self, "_bk", None) != ck:
+                self._bk, self._blocks = ck, blocks_of(src, self.B, self.H)
+            blocks = self._blocks
             if self.k >= len(blocks):
                 if self.phase == "live":
                     self.ended = True
@@ -341,14 +369,21 @@ def _c10_dispatch(t):
 def work_c19(task):
     global SR
     SR = 8
-    cfg, d, unpruned = task
+    cfg, d, unpruned = task[:3]
+    many = task[3] if len(task) > 3 else None
     lib()
-    res = graph.explore(lambda: RecSys(cfg), d=d, unpruned_depth=unpruned)
+
+    def mk():
+        s_ = RecSys(cfg)
+        s_.many = many
+        return s_
+
+    res = graph.explore(mk, d=d, unpruned_depth=unpruned, max_depth=(4 if many else None))
     viol = []
     for hist, msg in res.violations:
         key = "recorder n=%d sw=%d ch=%d B=%d H=%d max_read=%r how=%s src=%s history=%s" % (tuple(cfg) + (
             "".join(op[0][0] if op[0] != "rewind" else "W" for op in hist),))
-        viol.append((key, msg, {"kind": "c19", "cfg": list(cfg), "history": hist}))
+        viol.append((key, msg, {"kind": "c19", "cfg": list(cfg), "history": hist, "many": many}))
     cov = {"evaluations": res.histories, "states": res.states, "transitions": res.transitions,
            "traces_validated_against_impl": res.histories, "distinct_nontrivial": res.histories,
            "merges_validated": res.merges_validated,
@@ -395,7 +430,7 @@ def run(prop, tier):
     if prop == "C10":
         rep = common.Report(prop, tier, "bounded-exhaustive enumeration of (source length x format x block x hop x max_read x "
                             "source kind) with reads past the end, against the by-definition block model")
-        kinds = ["bytes", "buffer", "raw", "wav", "stdin", "wav_eager", "stdin:1", "stdin:3", "stdin:5,2"]
+        kinds = ["bytes", "buffer", "raw", "wav", "stdin", "wav_eager", "stdin:1", "stdin:3", "stdin:5,2", "buffer_pos2"]
         tasks = [(sw, ch, B, kinds, tier, 8) for (sw, ch) in FORMATS for B in (range(1, 6) if quick else range(1, 8))]
         # a high rate: max_read / block_dur / hop_dur are sub-millisecond values there
         tasks += [(sw, ch, B, ["bytes", "wav", "stdin", "stdin:3"], tier, 16000) for (sw, ch) in FORMATS[:2] for B in ((2, 3) if quick else (1, 2, 3, 5))]
@@ -405,7 +440,7 @@ def run(prop, tier):
         rep.cov["bounds"] = {"block_samples": "1..5" if quick else "1..7", "rates": [8, 16000], "source_len": "0..3*block+2", "formats": FORMATS,
                              "kinds": kinds}
         c10_rejections(rep)
-        ltasks = [("L", (sw, ch, B, tier, 8192)) for (sw, ch) in ((2, 2), (1, 1)) for B in ((1024, 4096) if quick else (1024, 4096, 8192))]
+        ltasks = [("L", (sw, ch, B, tier, 8192)) for (sw, ch) in ((2, 2), (1, 1)) for B in ((1024, 4096, 16385, 40000) if quick else (1024, 4096, 8192, 16385, 40000, 70001))]
         for part in common.pmap(_c10_dispatch, [("w", t) for t in tasks] + ltasks):
             rep.merge(part)
         rep.assumptions += ["rate 8 Hz so that block/hop/max_read values are exact binary fractions; max_read uses "
@@ -424,6 +459,13 @@ def run(prop, tier):
                             continue
                         d, unpruned = (2, 5) if quick else (2, 7)
                         tasks.append(((n, fmt[0], fmt[1], B, H, mr, how, kind), d, unpruned))
+    for n in (0, 1, 3, 5):
+        for B, H in ((1, 1), (2, 1), (3, 2)):
+            for mr in (None, 2.5 / SR):
+                tasks.append(((n, 2, 1, B, H, mr, "Recorder", "buffer_pos2"), 2, 5 if quick else 6))
+    # more than 1024 / 2048 reads before the rewind
+    for (n, B, H, mr, k) in ((1100, 1, 1, None, 1030), (2300, 1, 1, None, 2060), (2200, 2, 1, 2100 / SR, 1040), (3300, 3, 3, None, 1030)):
+        tasks.append(((n, 1, 1, B, H, mr, "Recorder", "bytes"), 0, 3, k))
     for (n, B, H, mr) in ((3 * 1024 + 7, 1024, 1024, None), (3 * 1024 + 7, 1024, 512, None), (2 * 4096 + 1, 4096, 4095, (4096 + 100) / 8),
                           (5000, 1024, 1000, 4500 / 8)):
         tasks.append(((n, 2, 2, B, H, mr, "Recorder", "bytes"), 1, 4 if quick else 5))
@@ -455,7 +497,13 @@ def replay(case):
         return "not rejected"
     if k == "c19":
         cfg = tuple(case["cfg"])
-        s, msg = graph.replay(lambda: RecSys(cfg), [tuple(op) for op in case["history"]])
+
+        def mk():
+            s_ = RecSys(cfg)
+            s_.many = case.get("many")
+            return s_
+
+        s, msg = graph.replay(mk, [tuple(op) for op in case["history"]])
         s.close()
         return msg
     if k == "c19non":
